@@ -27,6 +27,27 @@ ASSUMPTIONS = ['indirect calls are resolved by signature modulo pointer types (o
                'a global whose address escapes into instance memory is listed as assumed: writes through the escaped pointer are not tracked',
                'libstdc++/libc internals are outside the analysed module']
 
+# escapes of a mutable global's address that were read and found harmless: (function, global) -> reason.  Anything else is a finding.
+REVIEWED_ESCAPES = {
+    ('SLOT_SET', 'NULL_RATE'): 'GENS: slot rate pointers select a row of a rate table that is only read afterwards',
+    ('PSG_setVolumeMode', 'voltbl'): 'emu2149: the PSG keeps a pointer to one of two volume tables and only reads through it',
+    ('Prepare', 'pmtable'): 'fmgen: channels keep a read pointer into the LFO phase-modulation table',
+    ('Channel4', 'pmtable'): 'fmgen: as above (constructor)',
+    ('Prepare', 'amtable'): 'fmgen: operators keep a read pointer into the LFO amplitude-modulation table',
+    ('Operator', 'amtable'): 'fmgen: as above (constructor)',
+    ('SetReg', 'enveloptable'): 'fmgen PSG: the envelope pointer selects a row that is only read',
+    ('opn2_linkedVersion', 'opn2_version'): 'the version struct is returned by const pointer',
+    ('realTime_NoteOn', 'm_emptyInstrument'): 'notes of blank instruments point at the shared empty instrument; OpnInstMeta is only read through NoteInfo::ains',
+}
+
+_RNG = ('finding', 'the C library\'s pseudo-random generator is one hidden process-wide state: the output of this instance depends on every other caller of rand() and is not reproducible from the instance\'s own history')
+_BUF = ('finding', 'returns / uses a static buffer of the C library that every thread shares')
+HIDDEN_STATE_LIBC = {
+    'rand': _RNG, 'srand': _RNG, 'random': _RNG, 'srandom': _RNG, 'drand48': _RNG, 'lrand48': _RNG, 'mrand48': _RNG, 'erand48': _RNG,
+    'strtok': _BUF, 'localtime': _BUF, 'gmtime': _BUF, 'asctime': _BUF, 'ctime': _BUF, 'tmpnam': _BUF, 'setlocale': _BUF,
+    'strerror': ('assumed', 'glibc returns pointers to immutable message strings for the error numbers that can occur here (file open failure); only an unknown error number would use the shared buffer'),
+}
+
 WRITE_KINDS = ('store', 'memintrinsic-dest', 'atomic', 'arg-indirect-call')
 
 
@@ -96,10 +117,33 @@ def analyse(facts, tier):
             if w in by_writer:
                 continue
             wshort = re.sub(r'\(.*', '', w)
-            obls.append(Obl('C14.R1', wshort, 'escape ' + gname, ss[0]['loc'], 'assumed',
-                            why='address of the object is stored/returned; writes through that pointer are not tracked', nontrivial=False))
+            reason = REVIEWED_ESCAPES.get((wshort.split('::')[-1], (g.get('srcname') or g['dname']).split('::')[-1]))
+            if reason:
+                obls.append(Obl('C14.R1', wshort, 'escape ' + gname, ss[0]['loc'], 'assumed',
+                                why='address of the object is stored/returned; reviewed: ' + reason, nontrivial=False))
+            else:
+                obls.append(Obl('C14.R1', wshort, 'escape ' + gname, ss[0]['loc'], 'finding',
+                                why='the address of a non-const process-wide object is stored into memory or handed on (%d site(s)): code that receives the pointer writes to storage shared by every instance and thread (a `static` scratch buffer races as soon as two instances render in parallel)' % len(ss),
+                                detail={'bytes': g['bytes'], 'kinds': sorted({s_['kind'] for s_ in ss})}))
     if n_mut < 40:
         raise build.AnalysisBroken('C14: only %d mutable globals seen in the module' % n_mut)
+    # hidden process-wide state of the C library: the pseudo-random generator, strtok's cursor, the static buffers of the time functions...
+    # A call reachable from the C API makes the output depend on what other instances (or the host program) did with the same state.
+    by_id = {f['id']: f for f in ir.fns}
+    n_hidden = 0
+    for f in ir.fns:
+        if f['id'] not in par or not f['defined']:
+            continue
+        for cid in f.get('callees', []):
+            c = by_id.get(cid)
+            if c is None or c['defined']:
+                continue
+            nm = c['name']
+            if nm in HIDDEN_STATE_LIBC:
+                n_hidden += 1
+                st_, why = HIDDEN_STATE_LIBC[nm]
+                obls.append(Obl('C14.R1', f['dname'].split('(')[0], 'call ' + nm, '%s:%s' % (f.get('file', '?'), f.get('line', 0)), st_,
+                                why=why + (' (%s)' % ' <- '.join(ir.path(par, f['id'])[-4:]) if st_ == 'finding' else ''), nontrivial=(st_ == 'finding')))
 
     # ---- R2 constructor initialisation
     obls += r2(facts)
